@@ -12,6 +12,8 @@ def term_tree(R, v, heap):
     k = v.t.kind
     if v.t is T.Const:
         return ("const", repr(v.z))
+    if k == "nullable":
+        return ("nullable", v.z[0], term_tree(R, v.z[1], heap))
     if k == "list":
         c = heap[v.z].content
         if c is None:
@@ -169,6 +171,10 @@ def pyval(model, tree):
         return {"__obj__": tree[1], "fields": {k: pyval(model, t) for k, t in tree[2].items()}}
     if tag == "const":
         return {"__const__": tree[1]}
+    if tag == "nullable":
+        if z3.is_true(model.eval(tree[1], model_completion=True)):
+            return None
+        return pyval(model, tree[2])
     raise Unrepresentable(tag)
 
 
